@@ -3,6 +3,7 @@
 package c14
 
 import (
+	"context"
 	"fmt"
 	"math/rand"
 	"sort"
@@ -33,10 +34,21 @@ type drCase struct {
 	Splits     int
 	Faults     int
 	Notify     bool
+	// caller-side cancellation: the context given to Execute is cancelled right after the answer of the CancelRPC-th
+	// DeleteRange request / of the request starting at CancelStart (the last request of a 128-region sub-task)
+	CancelRPC   int
+	CancelStart string
 }
 
 func (c drCase) String() string {
-	return fmt.Sprintf("mocktikv/strict=%v/regions=%d/[%q,%q)/conc=%d/splits=%d/faults=%d%%/notify=%v", c.Strict, c.Regions, c.Start, c.End, c.Conc, c.Splits, c.Faults, c.Notify)
+	x := ""
+	if c.CancelRPC > 0 {
+		x = fmt.Sprintf("/cancel@rpc%d", c.CancelRPC)
+	}
+	if c.CancelStart != "" {
+		x = "/cancel@start:" + c.CancelStart
+	}
+	return fmt.Sprintf("mocktikv/strict=%v/regions=%d/[%q,%q)/conc=%d/splits=%d/faults=%d%%/notify=%v", c.Strict, c.Regions, c.Start, c.End, c.Conc, c.Splits, c.Faults, c.Notify) + x
 }
 
 // populate commits values for a random subset of keys (two rounds: overwrites and deletions) and returns the model.
@@ -114,6 +126,9 @@ func runDeleteRange(r *vrep.Report, u *uni.Universe, c *uni.ClientStore, strict 
 	var splits, faults, nReq atomic.Int64
 	var runaway atomic.Bool
 	bound := int64(300 + 30*(cs.Regions+cs.Splits))
+	cancelFired := false
+	ctx, cancelCtx := context.WithCancel(bg)
+	defer cancelCtx()
 	c.Net.SetDecider(func(call *uni.Call) uni.Action {
 		if call.Cmd != tikvrpc.CmdDeleteRange {
 			return uni.Action{}
@@ -125,6 +140,13 @@ func runDeleteRange(r *vrep.Report, u *uni.Universe, c *uni.ClientStore, strict 
 		}
 		mu.Lock()
 		defer mu.Unlock()
+		if !cancelFired {
+			q, _ := call.Req.(*kvrpcpb.DeleteRangeRequest)
+			if (cs.CancelRPC > 0 && int(nReq.Load()) == cs.CancelRPC) || (cs.CancelStart != "" && q != nil && string(q.StartKey) == cs.CancelStart) {
+				cancelFired = true
+				return uni.Action{After: cancelCtx}
+			}
+		}
 		if budget > 0 && rng.Intn(100) < 50 {
 			budget--
 			k := keyName(rng.Intn(len(keys)))
@@ -164,7 +186,7 @@ func runDeleteRange(r *vrep.Report, u *uni.Universe, c *uni.ClientStore, strict 
 		task = rangetask.NewDeleteRangeTask(c.Store, []byte(cs.Start), []byte(cs.End), cs.Conc)
 	}
 	done := make(chan error, 1)
-	go func() { done <- task.Execute(bg) }()
+	go func() { done <- task.Execute(ctx) }()
 	var xerr error
 	select {
 	case xerr = <-done:
@@ -173,6 +195,9 @@ func runDeleteRange(r *vrep.Report, u *uni.Universe, c *uni.ClientStore, strict 
 		return false
 	}
 	c.Net.SetDecider(nil)
+	mu.Lock()
+	cancelled := cancelFired
+	mu.Unlock()
 	var rpcs []string
 	type iv struct{ s, e string }
 	var okRanges []iv
@@ -210,9 +235,14 @@ func runDeleteRange(r *vrep.Report, u *uni.Universe, c *uni.ClientStore, strict 
 	r.Count("faults_injected", int(faults.Load()))
 	if xerr != nil {
 		r.Count("runs_returning_error", 1)
-		if faults.Load() == 0 {
+		if cancelled {
+			r.Count("cancelled_runs_returning_error", 1) // the caller gave up: an error is a truthful answer
+		} else if faults.Load() == 0 {
 			viol(r, uni.Mock, "deleterange:error-without-fault", fmt.Sprintf("%s: Execute returned %s although no fault was injected", cs, es(xerr)), detail)
 		}
+	}
+	if cancelled && xerr == nil {
+		r.Count("cancelled_runs_returning_nil", 1) // then every key of the range must be gone all the same (checked below)
 	}
 	after, err := u.ReadTruth(bkeys(keys))
 	if err != nil {
@@ -398,6 +428,55 @@ func TestVerifC14DeleteRange(t *testing.T) {
 		if strict != nil {
 			r.Count("strict_rejections", int(strict.delRejects.Load()))
 		}
+		r.Flush()
+		u.Close()
+	}
+	// DeleteRangeTask hands out sub-tasks of 128 regions (no knob): layouts of 200 regions (two sub-tasks: the second
+	// is queued when the first one's last request is answered) and 420 regions (four), a border on every key; the
+	// caller cancels right after the last request of the first sub-task, or at some request
+	for bi := 0; bi < vrep.Pick(4, 12); bi++ {
+		nk := []int{200, 200, 420, 200}[bi%4]
+		u, err := uni.New(uni.Mock, 3)
+		if err != nil {
+			r.Inconc("universe: %v", err)
+			return
+		}
+		var strict *strictBackend
+		if bi%2 == 0 {
+			u.C14WrapBackend(func(inner tikv.Client) tikv.Client { strict = &strictBackend{Client: inner, u: u}; return strict })
+		}
+		c, err := u.NewClient()
+		if err != nil {
+			r.Inconc("client: %v", err)
+			u.Close()
+			return
+		}
+		lay := newLayout(u)
+		var keys []string
+		for i := 0; i < nk; i++ {
+			keys = append(keys, keyName(i))
+			if i > 0 {
+				lay.split(keyName(i))
+			}
+		}
+		model := map[string]string{}
+		if err := populate(u, c, rng, keys, model, bi); err != nil {
+			r.Inconc("populate: %v", err)
+			u.Close()
+			continue
+		}
+		cs := drCase{Strict: strict != nil, Regions: nk, Conc: 1 + bi%4/3}
+		switch bi % 4 {
+		case 0, 1: // whole key space: the first sub-task ends with the region starting at k0127
+			cs.CancelStart = keyName(127)
+		case 2:
+			cs.Start, cs.End = keyName(10), keyName(410)
+			cs.CancelStart = keyName(10 + 127)
+		case 3:
+			cs.Start = keyName(5)
+			cs.CancelRPC = 20 + rng.Intn(150)
+		}
+		runDeleteRange(r, u, c, strict, lay, keys, model, rng, cs)
 		r.Flush()
 		u.Close()
 	}
